@@ -5,12 +5,14 @@ From RP2V Require Import Model.EntryFull.
 From RP2V Require Import Model.EntryL6.
 From RP2V Require Import Model.EntryOpenPos.
 From RP2V Require Import Model.Generated Model.EntryTaxReport.
+From RP2V Require Import Model.EntryC05Env.
 Open Scope Z_scope.
 
 Definition entry (cmd : Z) (args : list Z) : list Z :=
   if cmd =? 1 then entry_is_long args else
   if cmd =? 2 then entry_time args else
   if cmd =? 3 then entry_dec args else
+  if cmd =? 4 then entry_c05_env args else
   if cmd =? 10 then entry_match args else
   if cmd =? 11 then entry_spec args else
   if cmd =? 12 then entry_match_repush args else
